@@ -105,6 +105,7 @@ type retainExtractor struct {
 	alias   map[types.Object]ast.Expr
 	atoms   []retAtom
 	bad     []string
+	depth   int
 }
 
 // FindRetainLoops extracts all rebuild loops of a function declaration.
@@ -311,6 +312,16 @@ func (ex *retainExtractor) cond(e ast.Expr) *bexpr {
 	case *ast.UnaryExpr:
 		if x.Op == token.NOT {
 			return &bexpr{Op: "not", Kids: []*bexpr{ex.cond(x.X)}}
+		}
+	case *ast.Ident:
+		// a condition computed into a named boolean first (isRequestedEntry := a && b): expand its definition
+		if o := ex.info.Uses[x]; o != nil {
+			if def, ok := ex.alias[o]; ok && ex.depth < 4 {
+				ex.depth++
+				r := ex.cond(def)
+				ex.depth--
+				return r
+			}
 		}
 	case *ast.CallExpr:
 		// reflect.DeepEqual(a, b), slices.Equal(a, b)
